@@ -514,6 +514,32 @@ func runFileInput(rep *Report, in FileInput, cfB, cfR *CaseFile) {
 			}
 		}
 	}
+	if in.Mode == "faults" && len(in.Faults) > 0 {
+		// AsBytes is io.ReadAll over a fresh reader: it fails exactly when a fresh streamed read to the end fails
+		if n3, err := openFile(fc.st, fc.root, in.Opener); err == nil {
+			if l3, ok := n3.(lbn); ok {
+				var streamed, whole Outcome
+				var nStream, nWhole int
+				streamed = guard(func() error {
+					r, err := l3.AsLargeBytes()
+					if err != nil {
+						return err
+					}
+					b, err := io.ReadAll(r)
+					nStream = len(b)
+					return err
+				})
+				whole = guard(func() error {
+					b, err := n3.AsBytes()
+					nWhole = len(b)
+					return err
+				})
+				if streamed.Class != "panic" && whole.Class != "panic" && (streamed.Class != whole.Class || (streamed.Class == "ok" && nStream != nWhole)) {
+					fail("C12", "asbytes-vs-stream", "AsBytes and a streamed read to the end of the same file disagree while a block is unavailable", fmt.Sprint(streamed.Class, " ", nStream), fmt.Sprint(whole.Class, " ", nWhole))
+				}
+			}
+		}
+	}
 	if in.Mode == "faults" && firstBad >= 0 && !emptyBad {
 		// the whole value: AsBytes needs every block, so it must report an error, never a (shortened) value -
 		// also when the storage's own error is io.ErrUnexpectedEOF, which a buffer-filling read may mistake for "done"
@@ -1267,13 +1293,16 @@ func scnFiles(rep *Report, rng *Rng, tier string, outdir string) {
 			addRead(in)
 		}
 		// preload with every single block unavailable must fail (C06)
-		for i := 1; i < len(fc.order); i++ {
-			fc.st.Unavailable = map[string]uint64{fc.order[i].Cid.KeyString(): 1}
+		for i := 1; i < 3*len(fc.order); i++ {
+			if i%len(fc.order) == 0 {
+				continue
+			}
+			fc.st.Unavailable = map[string]uint64{fc.order[i%len(fc.order)].Cid.KeyString(): uint64(1 + i/len(fc.order))}
 			o := guard(func() error { _, err := openFile(fc.st, fc.root, "preload"); return err })
 			if o.Class == "ok" && hand == "empty-leading-leaf" {
-				rep.Fail("C06", "files/leading-empty-preload-partial", "preload reification returned a node although an (empty, leading) block of the file is unavailable", base, "error", fmt.Sprintf("ok (block %d unavailable)", i))
+				rep.Fail("C06", "files/leading-empty-preload-partial", "preload reification returned a node although an (empty, leading) block of the file is unavailable", base, "error", fmt.Sprintf("ok (block %d unavailable)", i%len(fc.order)))
 			} else if o.Class == "ok" {
-				rep.Fail("C06", "files/hand-preload-partial", "preload reification returned a node although a block of the file is unavailable", base, "error", fmt.Sprintf("ok (block %d unavailable)", i))
+				rep.Fail("C06", "files/hand-preload-partial", "preload reification returned a node although a block of the file is unavailable", base, "error", fmt.Sprintf("ok (block %d unavailable, refusal kind %d)", i%len(fc.order), 1+i/len(fc.order)))
 			} else if o.Class == "panic" {
 				rep.Fail("C13", "files/hand-preload-panic", "preload reification panicked on an unavailable block", base, "error", "panic")
 			}
@@ -1299,6 +1328,12 @@ func scnFiles(rep *Report, rng *Rng, tier string, outdir string) {
 	// ranges through a link system whose NodeReifier is Reify (every loaded block arrives as a UnixFS node)
 	for _, ab := range [][2]int{{0, 1}, {9, 11}, {20, 21}, {36, 37}} {
 		addRead(FileInput{Width: 3, Chunker: "size-2", Size: 37, Seed: 41, Mode: "range", Opener: "nodereifier",
+			Ops: []FOp{{Kind: "seek", Off: int64(ab[0]), Whence: io.SeekStart}, {Kind: "read", K: ab[1] - ab[0]}}})
+	}
+	// a root whose FileSize also counts four bytes of inline Data next to its links (the reader serves the children only):
+	// BlockSizes are truthful, the ranges are taken with Seek from the start
+	for _, ab := range [][2]int{{0, 1}, {8, 16}, {7, 9}, {16, 24}, {23, 24}} {
+		addRead(FileInput{Hand: "filesize-counts-inline", Mode: "range", Opener: "lazy", Size: 24,
 			Ops: []FOp{{Kind: "seek", Off: int64(ab[0]), Whence: io.SeekStart}, {Kind: "read", K: ab[1] - ab[0]}}})
 	}
 	// storage that fails once per block and recovers: readers asked again (every single block; several at once)
@@ -1338,7 +1373,7 @@ func scnFiles(rep *Report, rng *Rng, tier string, outdir string) {
 	if tier == "thorough" {
 		nHand = 200
 	}
-	for hi, hand := range append([]string{"nosizes-tree-1", "nosizes-tree-2", "nosizes-mixed"}, randUnsized...) {
+	for hi, hand := range append([]string{"nosizes-tree-1", "nosizes-tree-2", "nosizes-mixed", "nosizes-short-blocksizes"}, randUnsized...) {
 		_, content := handFile(NewStore(), hand)
 		size := len(content)
 		for h := 0; h < nHand; h++ {
@@ -1363,7 +1398,7 @@ func scnFiles(rep *Report, rng *Rng, tier string, outdir string) {
 		}
 	}
 	// ... full sequential reads (C20)
-	for hi, hand := range append([]string{"nosizes-tree-1", "nosizes-tree-2", "nosizes-mixed"}, randUnsized...) {
+	for hi, hand := range append([]string{"nosizes-tree-1", "nosizes-tree-2", "nosizes-mixed", "nosizes-short-blocksizes"}, randUnsized...) {
 		_, content := handFile(NewStore(), hand)
 		for v := 0; v < 2; v++ {
 			addRead(FileInput{Hand: hand, Mode: "order", Opener: []string{"direct", "lazy"}[(hi+v)%2], Size: len(content),
@@ -1382,7 +1417,7 @@ func scnFiles(rep *Report, rng *Rng, tier string, outdir string) {
 		}
 	}
 	// ... and with every single block below the root unavailable, read sequentially (then once more after the error)
-	for hi, hand := range append([]string{"nosizes-tree-1", "nosizes-tree-2"}, randUnsized...) {
+	for hi, hand := range append([]string{"nosizes-tree-1", "nosizes-tree-2", "nosizes-short-blocksizes"}, randUnsized...) {
 		base := FileInput{Hand: hand, Mode: "faults"}
 		fc, err := makeFile(base)
 		if err != nil {
@@ -1544,6 +1579,31 @@ func scnFiles(rep *Report, rng *Rng, tier string, outdir string) {
 			if len(fs) > 0 {
 				faultSets = append(faultSets, fs)
 			}
+		}
+		// the preloading view over the same file with one block unavailable (three shapes of refusal): an error, never a node
+		for i := 1; i < nblocks; i++ {
+			if tier != "thorough" && nblocks > 14 && i%3 != si%3 {
+				continue
+			}
+			if sp2 := fc.order[i]; sp2.Missing {
+				continue
+			}
+			for kind := uint64(1); kind <= 3; kind++ {
+				fc.st.Unavailable = map[string]uint64{fc.order[i].Cid.KeyString(): kind}
+				o := guard(func() error { _, err := openFile(fc.st, fc.root, "preload"); return err })
+				if o.Class == "ok" && fc.order[i].Cid.KeyString() != fc.root.KeyString() {
+					// (a block that covers no byte at the very start of its parent is stepped over: see the known findings)
+					var spx [][2]int
+					spans(fc.dag, 0, &spx)
+					if spx[i][1] > spx[i][0] {
+						rep.Fail("C06", "files/preload-partial", "preload reification returned a node although a block of the file is unavailable", base, "error", fmt.Sprintf("ok (block %d unavailable, refusal kind %d)", i, kind))
+						rep.Fail("C12", "files/preload-partial", "preload reification needed a block that cannot be loaded and did not report the load error", base, "load error", fmt.Sprintf("ok (block %d unavailable, refusal kind %d)", i, kind))
+					}
+				} else if o.Class == "panic" {
+					rep.Fail("C13", "files/preload-panic", "preload reification panicked on an unavailable block", base, "error", "panic")
+				}
+			}
+			fc.st.Unavailable = map[string]uint64{}
 		}
 		for fi, fs := range faultSets {
 			in := base
@@ -1813,7 +1873,7 @@ func min64(a, b int64) int64 {
 }
 
 // sizedHands: hand-assembled file DAGs with truthful sizes in shapes or encodings no builder here writes
-var sizedHands = []string{"pb-packed-sizes", "empty-middle-leaf", "pb-extra-blocksizes", "identity-raw-leaf", "identity-pb-leaves", "empty-leading-leaf"}
+var sizedHands = []string{"pb-packed-sizes", "empty-middle-leaf", "pb-extra-blocksizes", "identity-raw-leaf", "identity-pb-leaves", "empty-leading-leaf", "surplus-blocksizes-no-filesize"}
 
 func sizedHandFile(st *Store, kind string) (cid.Cid, []byte, bool) {
 	pbLeaf := func(c []byte, identity bool) cid.Cid {
@@ -1857,6 +1917,36 @@ func sizedHandFile(st *Store, kind string) (cid.Cid, []byte, bool) {
 			kids, lens, content = append(kids, pbLeaf(c, false)), append(lens, uint64(len(c))), append(content, c...)
 		}
 		return sizedNode(kids, lens, true, nil), content, true
+	case "surplus-blocksizes-no-filesize", "nosizes-short-blocksizes":
+		// no FileSize (the length is what the links add up to) and a BlockSizes list that is not one entry per link: a
+		// surplus non-zero entry at the end / an entry for the first child only (the others are opened to be measured)
+		var rl []rawLink
+		var bs []uint64
+		for _, c := range chunks {
+			k := pbLeaf(c, false)
+			nm, ts := "", uint64(len(st.Blocks[k.KeyString()]))
+			rl = append(rl, rawLink{Name: &nm, Tsize: &ts, Cid: k})
+			bs = append(bs, uint64(len(c)))
+			content = append(content, c...)
+		}
+		if kind == "nosizes-short-blocksizes" {
+			bs = bs[:1]
+		} else {
+			bs = append(bs, 5)
+		}
+		return st.PutPBRaw(encodePBRaw(rl, ufsData(2, nil, false, nil, bs, nil, nil), true)), content, true
+	case "filesize-counts-inline":
+		var rl []rawLink
+		var bs []uint64
+		for _, c := range [][]byte{[]byte("chunk-01"), []byte("chunk-02"), []byte("chunk-03")} {
+			k := pbLeaf(c, false)
+			nm, ts := "", uint64(len(st.Blocks[k.KeyString()]))
+			rl = append(rl, rawLink{Name: &nm, Tsize: &ts, Cid: k})
+			bs = append(bs, uint64(len(c)))
+			content = append(content, c...)
+		}
+		fsz := uint64(len(content) + 4)
+		return st.PutPBRaw(encodePBRaw(rl, ufsData(2, []byte("head"), true, &fsz, bs, nil, nil), true)), content, true
 	case "empty-leading-leaf":
 		for _, c := range [][]byte{{}, []byte("aaa"), []byte("bbb")} {
 			kids, lens, content = append(kids, st.PutRaw(c)), append(lens, uint64(len(c))), append(content, c...)
